@@ -7,6 +7,9 @@ strings it uses to numbers).  Mechanism facts probed on every run:
   `agents[id]` (false, the behaviour of the pinned tree before the fix);
 * `Cfg.idsAliased` — `agent_ids(t)` returns the internal list object `agent_type_map[t]` (true on the
   pinned tree) or a copy (false).  Only the caller-mutation layer (`OpX`) depends on it.
+* `Cfg.deleteArgSnapshot` (wave 4) — `delete_agents` is a function of the value of its argument (true) or
+  mutates the per-type lists while iterating the argument (false).  Only the aliased-argument layer (`OpD`:
+  the argument is the model's own returned list) depends on it.
 
 Wave 2: an agent carries both the factory key it was created under (`key`, ghost — Python does not
 store it) and its `agent_type` ATTRIBUTE (`ty`).  `create_agent` files the id under the KEY,
@@ -29,6 +32,10 @@ deriving DecidableEq, Repr
 structure Cfg where
   countById : Bool
   idsAliased : Bool := true
+  /-- wave 4: `delete_agents(arg)` computes its result from the VALUE `arg` has when the call starts (true), or
+  removes ids from the per-type lists in place while iterating `arg` (false) — which differs exactly when `arg` IS
+  one of those lists (`model.delete_agents(model.agent_ids(t))`) -/
+  deleteArgSnapshot : Bool := true
 deriving DecidableEq, Repr
 
 /-- `f key id` = `agent_type` attribute of the agent that the factory registered under `key` returns
@@ -227,5 +234,46 @@ def opsOf : List OpX → List Op
   | [] => []
   | .op o :: rest => o :: opsOf rest
   | _ :: rest => opsOf rest
+
+/-! ### Aliased-argument layer (wave 4): `model.delete_agents(model.agent_ids(t))`
+
+The argument of `delete_agents` is the registry's own list object (`agent_ids(t)` / `agent_type_map[t]`).  In `Op`
+the argument is a value; here the operation names WHICH object is passed.  With `deleteArgSnapshot` (the tree as
+it is: the membership test runs against the unchanged list, then the affected lists are rebuilt and rebound) this
+is `delete` of the list's current value.  Without it (ids taken out of `agent_type_map[type]` in place while the
+`for` loop walks the very same list: after removing position `i` the iterator moves on to position `i + 1` of the
+shortened list) every second id stays listed although all those agents left `model.agents`. -/
+
+/-- what `for x in l: l.remove(x)` leaves of a duplicate-free `l` -/
+def everySecond : List Nat → List Nat
+  | [] => []
+  | [_] => []
+  | _ :: b :: rest => b :: everySecond rest
+
+inductive OpD where
+  | op (o : Op)
+  | deleteOwn (ty : Nat)       -- delete_agents(agent_ids(ty))  /  delete_agents(agent_type_map[ty])
+deriving Repr
+
+def deleteInPlace (r : Reg) (ty : Nat) : Reg :=
+  { r with agents := r.agents.filter (fun a => !(r.tmap ty).contains a.id)
+           tmap := fun t => if t = ty then everySecond (r.tmap ty) else r.tmap t }
+
+def stepD (c : Cfg) (f : Fac) (r : Reg) : OpD → Reg
+  | .op o => step f r o
+  | .deleteOwn ty =>
+      if r.mapped ty then                                   -- else KeyError before anything happens
+        if c.deleteArgSnapshot || !c.idsAliased then delete r (r.tmap ty) else deleteInPlace r ty
+      else r
+
+def runD (c : Cfg) (f : Fac) (r : Reg) (ops : List OpD) : Reg := ops.foldl (stepD c f) r
+
+/-- the history of value-argument operations that an aliased history amounts to when `delete_agents` works on a
+snapshot of its argument -/
+def expandD (f : Fac) : Reg → List OpD → List Op
+  | _, [] => []
+  | r, .op o :: rest => o :: expandD f (step f r o) rest
+  | r, .deleteOwn ty :: rest =>
+      if r.mapped ty then .delete (r.tmap ty) :: expandD f (delete r (r.tmap ty)) rest else expandD f r rest
 
 end Bptk.C14
